@@ -631,6 +631,7 @@ _Model.ext_models.update({
     "copy.deepcopy": _deepcopy,
     "functools.reduce": _reduce,
     "operator.iadd": _op_iadd,
+    "typing.cast": lambda eng, rec: rec.args[1],      # typing.cast returns its second argument unchanged
     "tqdm.tqdm": lambda eng, rec: rec.args[0],         # identity on its iterable (DESIGN 2.1)
 })
 
